@@ -455,14 +455,22 @@ package yqlib
 // ---------------------------------------------------------------------------------------------
 // operator_select.go
 
+//@ pred truthyNode(n) = n != nil && n.Tag != "!!null" && (!(n.Kind == ScalarNode && n.Tag == "!!bool") || truthyText(n.Value))
+
 //@ func selectOperator
 //@   props C08 C01 C11
 //@   requires validCtx(context) && expressionNode != nil
-//@   ensures implies(result1 == nil, validCtx(result0))
+//@   at GetMatchingNodes: assert @predicate-on-one-input-read-only {C01,C08} len(arg1.MatchingNodes) == 1 && listAt(arg1.MatchingNodes, 0) == listAt(context.MatchingNodes, iter()) && arg1.DontAutoCreate && arg2 == expressionNode.RHS
+//@   at PushBack: assert @keeps-the-input-itself {C01} arg1 == iface(candidate) && candidate == nodeAt(context.MatchingNodes, iter())
+//@   at Next#1: assert @kept-iff-some-result-is-truthy {C01} includeResult == exists(k, 0, len(rhs.MatchingNodes), truthyNode(nodeAt(rhs.MatchingNodes, k)))
+//@   ensures implies(result1 == nil, validCtx(result0) && result0.DontAutoCreate == context.DontAutoCreate)
 //@   loop 1:
-//@     invariant nodeList(results) && fresh(results) && nodeList(context.MatchingNodes)
+//@     invariant nodeList(results) && fresh(results) && nodeList(context.MatchingNodes) && len(results) <= iter()
+//@     invariant @position (el == nil && iter() == len(context.MatchingNodes)) || (el != nil && elList(el) == context.MatchingNodes && elIdx(el) == iter())
 //@   loop 2:
 //@     invariant nodeList(results) && fresh(results) && nodeList(context.MatchingNodes) && nodeList(rhs.MatchingNodes)
+//@     invariant @position (resultEl == nil && iter() == len(rhs.MatchingNodes)) || (resultEl != nil && elList(resultEl) == rhs.MatchingNodes && elIdx(resultEl) == iter())
+//@     invariant @none-truthy-so-far !includeResult && forall(k, 0, iter(), !truthyNode(nodeAt(rhs.MatchingNodes, k)))
 
 // ---------------------------------------------------------------------------------------------
 // function-typed values called dynamically: contracts assumed for every value of the type, and checked
